@@ -771,3 +771,10 @@ complete -o nospace -F _{command} {command}
     )?;
     Ok(())
 }
+
+#[cfg(feature = "verif")]
+pub mod verif_hooks {
+    pub fn make_string_constant(s: &str) -> String {
+        super::make_string_constant(s)
+    }
+}
